@@ -606,9 +606,21 @@ func cmpBoardByClass(cls []byte, boardID *ptttype.BoardID_t, clsInCache []byte, 
 }
 
 func FindBoardAutoCompleteStartIdx(keyword []byte, isAsc bool) (startIdx ptttype.SortIdx, err error) {
-	boardID := findBoardClosetKeyword(keyword, isAsc)
 	nBoard_i32 := Shm.GetBNumber()
 	nBoard := ptttype.SortIdxInStore(nBoard_i32)
+	if len(keyword) == 0 { // every board carries the empty prefix
+		if nBoard_i32 <= 0 {
+			return -1, nil
+		}
+		if isAsc {
+			return 1, nil
+		}
+		return ptttype.SortIdx(nBoard_i32), nil
+	}
+	if len(keyword) > ptttype.IDLEN { // longer than any board name: no board carries it
+		return -1, nil
+	}
+	boardID := findBoardClosetKeyword(keyword, isAsc)
 
 	// find the closet keyword
 	idx, err := FindBoardIdxByName(boardID, !isAsc)
